@@ -269,7 +269,9 @@ def rule_except(repo: Repo) -> RuleResult:
         t_gc = p.trace(gc) if gc is not None else set()
         t_po = p.trace(po) if po is not None else set()
         c1 = any("attr:actions" in x and "attr:name" in x and x[0] == "param:action_call" for x in t_act) or \
-            (any("attr:actions" in x for x in t_act) and any(x[0] == "param:action_call" for x in p.trace(act.slice) if isinstance(act, ast.Subscript)))
+            (any("attr:actions" in x for x in t_act) and isinstance(act, ast.Subscript) and any(x[0] == "param:action_call" for x in p.trace(act.slice))) or \
+            (any("attr:actions" in x for x in t_act) and act is not None and
+             any(x[0] == "param:action_call" and "attr:name" in x and "askey" in x for x in p.trace(act, keys=True)))
         c2 = any(x[0] == "param:action_call" and "attr:parameters" in x for x in t_gc)
         c3 = any(x == ("param:problem_objects",) for x in t_po)
         okop = okop or (c1 and c2 and c3)
@@ -299,8 +301,32 @@ def rule_except(repo: Repo) -> RuleResult:
     if not h_ok:
         r.fail(Finding("C04.except", f, "missing:except-ValueError", "the refusal of apply (ValueError) is not caught: an invalid step aborts the export"))
     elif handler_state is None:
-        # maybe the handler reuses / copies the previous state
-        r.ok({"handler": "catches ValueError"})
+        # the handler reuses / copies the previous state: the successor of a step is never labelled as the initial state (State.copy and
+        # an alias both keep the pre-state's is_init, which is True for the first plan line: the exported text then opens a second (:init)
+        inherited = None
+        for t in tries:
+            for h in t.handlers:
+                relabelled = {ast.unparse(s_.targets[0].value) for s_ in ast.walk(h) if isinstance(s_, ast.Assign) and isinstance(s_.targets[0], ast.Attribute)
+                              and s_.targets[0].attr == "is_init" and isinstance(s_.value, ast.Constant) and s_.value.value is False}
+                for s_ in ast.walk(h):
+                    if not (isinstance(s_, ast.Assign) and len(s_.targets) == 1 and isinstance(s_.targets[0], ast.Name)):
+                        continue
+                    v = s_.value
+                    src = v.func.value if isinstance(v, ast.Call) and isinstance(v.func, ast.Attribute) and v.func.attr in ("copy", "__copy__", "__deepcopy__") else \
+                        v.args[0] if isinstance(v, ast.Call) and callee_name(v) in ("copy", "deepcopy") and v.args else v if isinstance(v, ast.Name) else None
+                    if src is None or s_.targets[0].id in relabelled:
+                        continue
+                    try:
+                        tr_ = p.trace(src)
+                    except KeyError:
+                        continue
+                    if tr_ and all(x == ("param:previous_state",) for x in tr_):
+                        inherited = s_
+        if inherited is not None:
+            r.fail(Finding("C04.except", f, "handler-label", f"after a refused action the successor is {unparse(inherited.value, 50)}: it keeps the pre-state's is_init label, so the "
+                           f"state after a refused FIRST step is exported as a second (:init ..) instead of (:state ..)", node=inherited))
+        else:
+            r.ok({"handler": "catches ValueError"})
     else:
         st = repo.find_method("State", "__init__")
         pr, fl, ii = L.arg_of(handler_state, st, "predicates"), L.arg_of(handler_state, st, "fluents"), L.arg_of(handler_state, st, "is_init")
